@@ -472,6 +472,7 @@ void profile_blast(RunCtx& ctx)
         };
         static const EF efs[] = {{MF_DUP_LOC_NAME, "$Duplicate_definition_of"}, {MF_DUP_TEMPLATE_NAME, "$Duplicate_definition_of"},
                                  {MF_INIT_IS_BRANCHPOINT, "$Location_expected"}, {MF_EMPTY_TEMPLATE, "$Missing_initial_location"},
+                                 {MF_BAD_NAME, "I"},  // "Invalid identifier" / "Identifier expected", reported on the <name> element
                                  {-1 /* blank system text */, "$syntax_error: $unexpected $end"}};
         for (auto& ef : efs) {
             const int st = step++;
@@ -510,6 +511,12 @@ void profile_blast(RunCtx& ctx)
                 } else if (ef.fault == MF_EMPTY_TEMPLATE) {
                     if (t.locs.empty() && !t0.locs.empty())
                         expect = tp;
+                } else if (ef.fault == MF_BAD_NAME) {
+                    if (t.name != t0.name)
+                        expect = tp + "/name";
+                    for (size_t j = 0; j < t.locs.size() && j < t0.locs.size() && expect.empty(); ++j)
+                        if (t.locs[j].name != t0.locs[j].name)
+                            expect = tp + "/location[" + std::to_string(j + 1) + "]/name";
                 }
             }
             if (expect.empty())
@@ -534,6 +541,8 @@ void profile_blast(RunCtx& ctx)
             std::string where_found;
             for (auto& d : view_diagnostics(*s.doc)) {
                 if (!d.error || d.msg.compare(0, strlen(ef.msg), ef.msg) != 0)
+                    continue;
+                if (ef.fault == MF_BAD_NAME && d.msg != "Invalid identifier" && d.msg != "Identifier expected")
                     continue;
                 found = true;
                 if (d.path == expect)
